@@ -1074,6 +1074,11 @@ static int btls_receive(struct xcm_socket *__restrict s, void *__restrict buf,
 
     TP_RET_ERR_UNLESS_STATE(s, bts, conn_state_ready, EAGAIN);
 
+    /* SSL_read() returning 0 for a zero-sized request is not
+       end-of-stream */
+    if (capacity == 0)
+	return 0;
+
     bts->conn.ssl_condition = 0;
     bts->conn.ssl_wants = 0;
 
